@@ -23,7 +23,7 @@ CLAIMED = {
                 "about the CODE (operations write only through their Transaction) is carried by the tie: a fault-injection campaign on "
                 "the real crates (user attribute laws failing at the k-th update, every k) with full before/after snapshots, diffed "
                 "against the model.",
-        "note": "Trusted: Lean kernel + 3 standard axioms; the model of fast-stm's log is hand-written; 'operations are closures over "
+        "note": "AttrSparseVec::merge / split of attributes/collections.rs (guard, reads, law dispatch table, writes in order) are RE-TRANSLATED from the source on every run (Gen/AttrMoves.lean) and proved equal as programs to mergeS / splitS of the model (Props/C04Gen.lean). Trusted: Lean kernel + 3 standard axioms; the model of fast-stm's log is hand-written; 'operations are closures over "
                 "the log' is tested (campaign), not proved; streams: every sew/unsew of every WF 2-map n<=3 x k<=8, transaction "
                 "blocks, 3-map glued-faces family (plain and force_ variants), remeshing kernels.",
         "design_ref": "DESIGN.md §7 C06, §4.1",
@@ -73,7 +73,7 @@ CLAIMED = {
                 "Tie: polyhedral complexes (hexahedra, tetrahedra, prisms, pyramids; rings of tets/cubes closing around an edge), glued "
                 "faces families, histories and tx blocks with free-term attribute values on the real CMap3 vs the model; Python oracle "
                 "recomputes cells independently and checks placement, round trips and 'unsew succeeds on embedded meshes'.",
-        "note": "Trusted: Lean kernel + 3 standard axioms; hand-written model. Cell level (C05Cells, C05Cells2): 1-sew/1-unsew on every WF 4 "
+        "note": "AttrSparseVec::merge / split of attributes/collections.rs (guard, reads, law dispatch table, writes in order) are RE-TRANSLATED from the source on every run (Gen/AttrMoves.lean) and proved equal as programs to mergeS / splitS of the model (Props/C04Gen.lean). Trusted: Lean kernel + 3 standard axioms; hand-written model. Cell level (C05Cells, C05Cells2): 1-sew/1-unsew on every WF 4 "
                 "map; 2- and 3-sew/unsew on closed faces; C05Succ: 1-/2-/3-unsew SUCCEED on an embedded mesh (built-in vertices; the result "
                 "is embedded again), open-face arms of 2-(un)sew, cell-level proviso => id-level proviso for 3-sew. C05Cells3(+Data): 3-sew / 3-unsew at cell level on OPEN faces; "
                 "C05SuccLaw: the unsews succeed for ANY attribute law that splits the values held at the splitting cells' identifiers "
@@ -107,7 +107,7 @@ CLAIMED = {
                 "split*; BadGeometry refusal exactly when all four coordinates are defined and the direction test fails; a rejected law "
                 "fails the call. Tie: exhaustive WF 2-maps n<=3/4 x all sews x value patterns with free-term attribute values on the "
                 "real CMap2 vs the model; Python oracle recomputes CELLS independently and checks merge/split placement per cell.",
-        "note": "Trusted: Lean kernel + 3 standard axioms; hand-written model. Cell level (Props/C04Cells*.lean, cell calculus in "
+        "note": "AttrSparseVec::merge / split of attributes/collections.rs (guard, reads, law dispatch table, writes in order) are RE-TRANSLATED from the source on every run (Gen/AttrMoves.lean) and proved equal as programs to mergeS / splitS of the model (Props/C04Gen.lean). Trusted: Lean kernel + 3 standard axioms; hand-written model. Cell level (Props/C04Cells*.lean, cell calculus in "
                 "Lemmas/CellCalc.lean): for 1-sew, 1-unsew, all four arms of 2-sew and every arm of 2-unsew the computed ids ARE "
                 "the minima of the cells and 'new cell = union of the two old cells, every other cell unchanged' is a theorem (for the "
                 "2-sew of two darts with successors the minima statement is under the property's proviso).",
